@@ -230,8 +230,17 @@ pub fn open_flow(
                             })
                             .ok_or(ContractError::FlowAssetNotSent)?;
                     }
-                    // no need to verify the case where flow_fee_denom == flow_asset_denom since
-                    // it is done before when we check the fee_flow denom is the same as the flow_asset_denom
+                    // when flow_fee_denom == flow_asset_denom the fee was already subtracted from
+                    // flow_asset.amount above, so the funds sent must cover exactly both of them
+                    else {
+                        let expected_amount = flow_asset.amount.checked_add(flow_fee.amount)?;
+                        info.funds
+                            .iter()
+                            .find(|sent| {
+                                sent.denom == flow_asset_denom && sent.amount == expected_amount
+                            })
+                            .ok_or(ContractError::FlowAssetNotSent)?;
+                    }
                 }
             }
         }
